@@ -27,7 +27,7 @@ LEVEL = 'exploration'
 RULE = ('request: generated streams of well-formed commands (I<hex>=, <hex>!, O<hex>?, K<hex>; with 1-8 upper-case digits incl. '
         'leading zeros, K counts 0-40, optional newline separators as the library\'s own proxy sends) x number-wire widths x '
         'oblivious producer valid gaps (short gaps everywhere, plus one pause of 2**8 .. 2**17 (thorough 2**20) cycles at every '
-        'position of a command); response: (value, digit count, ready schedule) triples run back to back on one instance, plus '
+        'position of a command, in quick also 2**18 and 2**19 at the positions inside a command); response: (value, digit count, ready schedule) triples run back to back on one instance, plus '
         'one not-ready run of the same lengths before every character of a response. '
         'An evaluation is one command judged over its window or one response judged over its handshakes; a non-trivial '
         'distinct case is (command kind, digit count, number, wire widths, preceding command kind) resp. (value, count, ready '
@@ -399,6 +399,10 @@ def expand_req(k, seed, tier):
 PAUSES = {'quick': [2 ** 8 + 16, 2 ** 10 + 16, 2 ** 12 + 16, 2 ** 14 + 16, 2 ** 16 + 16, 2 ** 17 + 16],
           'thorough': [2 ** 8 + 16, 2 ** 10 + 16, 2 ** 12 + 16, 2 ** 14 + 16, 2 ** 16 - 16, 2 ** 16 + 16, 2 ** 17 + 16, 2 ** 18 + 16, 2 ** 20 + 16]}
 PAUSE_POSITIONS = ('after_letter', 'between_digits', 'before_terminator', 'between_commands', 'after_newline')
+# deep producer pauses (quick only; thorough has them in the full family above): the next two powers of two, at the positions INSIDE a
+# command (where the parser holds a partial command), with the block producers only (the pure-Python producer idles 3-4x slower)
+DEEP_PAUSES = {'quick': [2 ** 18 + 16, 2 ** 19 + 16], 'thorough': []}
+DEEP_POSITIONS = ('after_letter', 'between_digits', 'before_terminator')
 
 
 def plan_req_pauses(tier):
@@ -412,6 +416,10 @@ def plan_req_pauses(tier):
             for kind in kinds:
                 out.append((L, pos, kind, j))
                 j += 1
+    for L in DEEP_PAUSES[tier]:
+        for pi, pos in enumerate(DEEP_POSITIONS):
+            j += 1 if j % 3 else 2              # producer = one of the two block producers (see expand_req_pause)
+            out.append((L, pos, 'IVOK'[(pi + j) % 4], j))
     return out
 
 
@@ -1037,7 +1045,7 @@ def run_check(run, tier, seed, shard):
     run.assume('the character port of the decoder is driven three ways: from Python between clock edges, and by a clocked ready/valid '
                'source block instantiated before resp. after the decoder (the simulator states that clocked blocks need no order); '
                'both sides of the port must agree on which characters were transferred')
-    run.assume('long-pause classes: "whatever the pacing" includes a producer that goes silent for up to 2**17+1 (thorough 2**20+1) cycles '
+    run.assume('long-pause classes: "whatever the pacing" includes a producer that goes silent for up to 2**19+16 (thorough 2**20+16) cycles '
                'after the command letter, between two digits, before the terminator, between commands and after the optional newline, '
                'and a consumer that is not ready for as long before any character of a response; the decoder has no notion of time in '
                'the property, so the same pulses and numbers are required')
@@ -1142,6 +1150,7 @@ def post_merge(run, tier, seed):
         run.inconclusive.append('no end-to-end answer was observed whose value differed from the previous capture of that output')
     rp = run.extra.get('request_long_pause_streams_judged_by_position_and_length', {})
     missing = ['%s/%d' % (pos, L) for L in PAUSES[tier] for pos in PAUSE_POSITIONS if not rp.get('%s: pause >= %d cycles' % (pos, L))]
+    missing += ['%s/%d' % (pos, L) for L in DEEP_PAUSES[tier] for pos in DEEP_POSITIONS if not rp.get('%s: pause >= %d cycles' % (pos, L))]
     if missing:
         run.inconclusive.append('long producer pauses not observed (pause seen on the port and the commands judged) for %s' % missing[:6])
     sp = run.extra.get('response_long_pause_responses_judged_by_position_and_length', {})
